@@ -31,7 +31,7 @@ CLAIMS = {
     text="Bounded model checking (SAT verdict over every value of the symbolic inputs inside the stated bounds) of the real "
          "dataset comparison, state decision and BMCA application code against an independently written reference of "
          "Figures 33-35: comparison on fully symbolic data sets, order properties, Ebest selection over all presentation orders, state decision for every "
-         "D0/Ebest/Erbest/prior state, and PtpInstanceState::bmca over two ports with arbitrary prior states.",
+         "D0/Ebest/Erbest/prior state, and PtpInstanceState::bmca with arbitrary prior states over a one-port instance (quick tier) and a two-port instance (thorough tier).",
     note="Trusted: Kani/CBMC, the transcription of the standard's figures in harness/root/refbmca.rs; "
          "foreign-master list contents are abstracted (one qualified candidate per port via a stub of take_best_port_announce_message).",
     ref="4/C05"),
@@ -57,7 +57,7 @@ CLAIMS = {
  "C08": dict(
     technique="Kani/CBMC inductive role invariant over handlers and BMCA; emission guards per handler",
     text="Every emitting handler is run from every port state: Announce/Sync/Follow_Up/Delay_Resp only leave a Master port, end-to-end Delay_Req only a Slave port; "
-         "BMCA over two ports yields at most one S1 (the port that received Ebest, never master-only or faulty), no Master under slave-only, and the filter is demobilized exactly when a port leaves slave/faulty.",
+         "BMCA yields S1 only for the port that received Ebest (never master-only or faulty; at most one S1 over two ports in the thorough tier), no Master under slave-only, and the filter is demobilized exactly when a port leaves slave/faulty.",
     note="Trusted: Kani/CBMC. " + STUBS + " Clock commands of the real Kalman filter on non-slave ports are argued from the filter swap, not model-checked.",
     ref="4/C08"),
  "C09": dict(
